@@ -37,6 +37,10 @@ CHECKS = {
          "Exploration: the ordered sequence of (marker, arguments) host calls of each generated program equals the sequence obtained by left-to-right, short-circuit, guard-order evaluation in the reference interpreter.",
          "Trusts the reference interpreter's evaluation order, written from the property statement.",
          "DESIGN.md §4 C08"),
+ "C11": ("model-based stateful testing over the embedding API: histories of build-runtime / compile / get / clone / call / drop (also on another thread) operations vs a liveness model over drop-tracked values stored in script constants, registered constants and closure captures",
+         "Exploration: after every step of a generated history each call must return the model's value for its script version and runtime, and per tag the tracked values must be alive exactly while something refers to them; at the end everything must have been dropped exactly once.",
+         "Use-after-free of still-mapped JIT memory can go unnoticed (worker isolation catches crashes only); liveness tracked per tag.",
+         "DESIGN.md §4 C11"),
  "C13": ("generated module trees with shared name pools and probe functions holding references of every form; independent resolver (model) vs compiled behaviour; in-memory vs on-disk differential; get_function by module path",
          "Exploration: for each generated tree the resolver written from the stated lookup rules predicts the tag every probe returns or that compilation fails; the tree is compiled from FileSpec and from a temp directory and both must agree with the model.",
          "Tree depth <= 3; import aliases distinct per scope; pkg/super only at the start of paths (documented grammar).",
